@@ -120,6 +120,28 @@ func runDump(path string) {
 					st = "err"
 				}
 				fmt.Fprintf(out, "export %s %s\n", st, hex.EncodeToString(exported))
+			case "failexport":
+				// an export that fails (a document whose metadata is not JSON) before the export under test, in the same
+				// process: a failed call may not leave anything behind for the next one
+				path3 := path + ".bad"
+				os.Remove(path3)
+				bc, err := syz.NewCollection(syz.CollectionOptions{Name: path3, DistanceMethod: 0, DimensionCount: 1, Quantization: 64, FileMode: syz.CreateAndOverwrite})
+				if err != nil {
+					fmt.Fprintln(out, "failexport nocoll")
+					return
+				}
+				bc.AddDocument(1, []float64{0.5}, []byte(`{"fine": true}`))
+				bc.AddDocument(2, []float64{0.25}, []byte("free text, not JSON"))
+				bc.AddDocument(3, []float64{0.75}, nil)
+				var sink bytes.Buffer
+				err = syz.ExportJSON(bc, &sink)
+				bc.Close()
+				os.Remove(path3)
+				if err != nil {
+					fmt.Fprintln(out, "failexport err")
+				} else {
+					fmt.Fprintln(out, "failexport ok")
+				}
 			case "import":
 				os.Remove(path2)
 				err := syz.ImportJSON(path2, bytes.NewReader(exported))
